@@ -18,6 +18,11 @@ type qPoint struct {
 	Dims map[string]interface{}
 	E    int64   // native period end (ns rel. to epoch)
 	A    float64 // value of "a": a distinct power of two, so sums identify subsets
+	// Status: 0 = must be reflected, 1 = may or may not be (the property leaves
+	// it open, e.g. a comparison against an absent dimension), 2 = must not be
+	Status int
+	B      float64 // optional second value ("b"), 0 if absent
+	HasB   bool
 }
 
 type qSpec struct {
@@ -91,14 +96,38 @@ func checkSemantics(res *dbdrv.Result, pts []qPoint, q qSpec) (string, string) {
 				return "row-older-than-window", fmt.Sprintf("key %q: row ending %s is more than one resolution before the window start", k, d(T))
 			}
 			var in []qPoint
+			hasMay := false
 			for _, p := range ptsByKey[k] {
-				if p.E > T-P && p.E <= T {
+				if p.E > T-P && p.E <= T && p.Status != 2 {
+					if p.Status == 1 {
+						hasMay = true
+					}
 					in = append(in, p)
 				}
 			}
 			whollyInside := T-P >= q.Lo && T <= q.Hi
 			ai := fieldIdx(res, "a")
-			if whollyInside {
+			if whollyInside && hasMay && ai >= 0 {
+				// some points of the interval are optional: the value of a says which were taken
+				got := uint64(r.Vals[ai])
+				var sel []qPoint
+				var must, all uint64
+				for _, p := range in {
+					all |= uint64(p.A)
+					if p.Status == 0 {
+						must |= uint64(p.A)
+					}
+					if got&uint64(p.A) != 0 {
+						sel = append(sel, p)
+					}
+				}
+				if float64(got) != r.Vals[ai] || got&^all != 0 || must&^got != 0 {
+					return "wrong-point-set", fmt.Sprintf("key %q: row (%s, %s] has a = %v; required points sum to %v, permitted points to %v", k, d(T-P), d(T), r.Vals[ai], must, all)
+				}
+				in = sel
+				hasMay = false
+			}
+			if whollyInside && !hasMay {
 				if len(in) == 0 {
 					return "row-without-points", fmt.Sprintf("key %q: row (%s, %s] %v has no accepted point", k, d(T-P), d(T), r.Vals)
 				}
@@ -109,6 +138,14 @@ func checkSemantics(res *dbdrv.Result, pts []qPoint, q qSpec) (string, string) {
 					mx = math.Max(mx, p.A)
 				}
 				want := map[string]float64{"a": sum, "ca": cnt, "av": sum / cnt, "mx": mx, "ratio": sum / cnt, "_points": cnt}
+				bsum := 0.0
+				for _, p := range in {
+					if p.HasB {
+						bsum += p.B
+					}
+				}
+				want["b"] = bsum
+				want["nv"] = 0
 				for fi, f := range res.Fields {
 					if w, ok := want[f]; ok && !rm.FloatEq(r.Vals[fi], w) {
 						return "wrong-aggregate", fmt.Sprintf("key %q: row (%s, %s] field %s = %v, the %d points in that interval give %v", k, d(T-P), d(T), f, r.Vals[fi], len(in), w)
@@ -130,7 +167,7 @@ func checkSemantics(res *dbdrv.Result, pts []qPoint, q qSpec) (string, string) {
 	// every point wholly inside the must window is covered by exactly one row
 	for k, ps := range ptsByKey {
 		for _, p := range ps {
-			if p.E-q.NativeRs < q.Lo || p.E > q.Hi {
+			if p.E-q.NativeRs < q.Lo || p.E > q.Hi || p.Status == 1 {
 				continue
 			}
 			n := 0
@@ -138,6 +175,9 @@ func checkSemantics(res *dbdrv.Result, pts []qPoint, q qSpec) (string, string) {
 				if p.E > r.TS-P && p.E <= r.TS {
 					n++
 				}
+			}
+			if p.Status == 2 {
+				continue // excluded points are policed through the value of a in each row
 			}
 			if n != 1 {
 				return "point-not-covered-once", fmt.Sprintf("point with key %q in native period ending %s is covered by %d rows (rows: %s)", k, d(p.E), n, rowsBrief(byKey[k], P))
